@@ -9,6 +9,7 @@ from harness import compat  # noqa: F401
 import numpy as np
 from distance3d import gjk
 import distance3d.gjk._gjk_nesterov_accelerated as NA
+import distance3d.gjk._gjk_nesterov_accelerated_primitives as NAP
 from distance3d.colliders import MeshGraph, Sphere, Capsule
 from harness.impl.narrow import build, Timeout, _alarm
 
@@ -51,6 +52,30 @@ def run(case):
         o["s0"] = [x[1] for x in LOG]
         o["s1"] = [x[2] for x in LOG]
         out["acc" if acc else "plain"] = o
+    if case.get("prim"):
+        for acc in case.get("accs", [False, True]):
+            o = dict(acc=acc)
+            signal.signal(signal.SIGALRM, _alarm)
+            signal.alarm(int(case.get("timeout", 30)))
+            try:
+                c0, c1 = build(case["c1"]), build(case["c2"])
+                md = NAP.get_minkowski_diff(c0, c1)
+                o.update(ty0=int(md[0]), data0=np.asarray(md[1], float).tolist(), ty1=int(md[2]),
+                         data1=np.asarray(md[3], float).tolist(), oR1=np.asarray(md[4], float).tolist(),
+                         ot1=np.asarray(md[5], float).tolist())
+                r = gjk.gjk_nesterov_accelerated_primitives(c0, c1, use_nesterov_acceleration=acc, **case.get("kw", {}))
+                o.update(contact=bool(r[0]), d=float(r[1]), iterations=int(r[3]))
+                o.update(type0=type(c0).__name__, type1=type(c1).__name__,
+                         radius0=float(c0.radius) if type(c0) in (Sphere, Capsule) else 0.0,
+                         radius1=float(c1.radius) if type(c1) in (Sphere, Capsule) else 0.0)
+            except Timeout:
+                o["exc"] = "TIMEOUT"
+            except BaseException as e:  # noqa
+                o["exc"] = type(e).__name__
+                o["exc_msg"] = str(e)[:200]
+            finally:
+                signal.alarm(0)
+            out["prim_acc" if acc else "prim_plain"] = o
     return out
 
 
